@@ -405,6 +405,7 @@ func main() {
 	w4 := &sim.CaseWriter{OutDir: *outDir, Name: "c20dep", Imports: imp, CaseType: "dep_case", MFun: "dep_mismatches", VFun: "dep_violations", PerShard: 100}
 	depositCases(r.Fork(), n, *nDep, w4)
 	w4.Close(st)
+	cappedDepositCases(r.Fork(), n, 2+*nDep/40, *outDir)
 	w5 := &sim.CaseWriter{OutDir: *outDir, Name: "c20merge", Imports: "From V Require Import U64 Extracted DexBatch.", CaseType: "mg_case", MFun: "mg_mismatches", VFun: "mg_violations", PerShard: 10}
 	mergeCases(r.Fork(), n, *nMerge, w5)
 	w5.Close(st)
